@@ -117,7 +117,12 @@ pub fn model_json(m: &[(String, BigRational)]) -> J {
 }
 
 /// replay a model: exact rationals at Sym (constants only), then natively at f64
+/// Replays run on a fresh thread each: thread-local state a (mutated) crate may keep is then that of a first use, as for a user
 pub fn replay(unit: &Unit, v: &Violation, timeout_ms: u64) -> Replay {
+    std::thread::scope(|s| std::thread::Builder::new().stack_size(512 << 20).spawn_scoped(s, || { install_thread_panic_state(); replay_here(unit, v, timeout_ms) }).expect("spawn replay thread").join().unwrap_or_default())
+}
+fn install_thread_panic_state() {}
+fn replay_here(unit: &Unit, v: &Violation, timeout_ms: u64) -> Replay {
     let mut r = Replay::default();
     // (1) exact. Inputs the model does not mention are unconstrained by the query; they get a default value, and if that
     // default violates an assumption of the harness (e.g. positivity) the next candidate is tried.
@@ -142,6 +147,9 @@ pub fn replay(unit: &Unit, v: &Violation, timeout_ms: u64) -> Replay {
             (PathEnd::Abort(a), _) => { r.exact_detail = format!("engine abort: {}", a); if a.starts_with("assumption") { continue; } }
             _ => {
                 if let Some(x) = viols.iter().find(|x| x.label == v.label) { r.exact_reproduces = true; r.exact_detail = format!("obligation false on exact replay: {}", x.detail); }
+                // the same inputs may break the property at another step when the crate keeps state outside the view (the symbolic
+                // run's thread had seen other paths before): any obligation of this unit failing on these inputs is a reproduction
+                else if let Some(x) = viols.first() { r.exact_reproduces = true; r.exact_detail = format!("on exact replay (fresh thread) these inputs violate '{}': {}", x.label, x.detail); }
                 else if let PathEnd::Panic(m) = &end { r.exact_detail = format!("panicked before reaching the obligation: {}", m); }
                 else { r.exact_detail = format!("obligation '{}' held on exact replay ({} residual symbolic decisions)", v.label, residual); }
             }
@@ -158,7 +166,7 @@ pub fn replay(unit: &Unit, v: &Violation, timeout_ms: u64) -> Replay {
             (PathEnd::Panic(m), "panic") => { r.native_reproduces = true; r.native_detail = format!("panics natively (f64, {} profile): {}", profile(), m); }
             (_, "panic") => r.native_detail = format!("no panic natively ({} profile)", profile()),
             _ => {
-                if let Some((l, d)) = n.failed.iter().find(|(l, _)| *l == v.label) { r.native_reproduces = true; let _ = l; r.native_detail = format!("f64 ({} profile): obligation fails: {}", profile(), d); }
+                if let Some((l, d)) = n.failed.iter().find(|(l, _)| *l == v.label).or(n.failed.first()) { r.native_reproduces = true; r.native_detail = format!("f64 ({} profile): obligation '{}' fails: {}", profile(), l, d); }
                 else if let PathEnd::Panic(m) = &end { r.native_detail = format!("f64: panicked: {}", m); }
                 else { r.native_detail = format!("f64 ({} profile): obligation held within tolerance ({} obligations evaluated)", profile(), n.obligations); }
             }
@@ -274,12 +282,14 @@ fn worker(units: &[Unit], sched: &(Mutex<Sched>, Condvar), cfg: &Config) {
             match &end {
                 PathEnd::Ok => {}
                 PathEnd::Panic(m) => { r.paths_panicked += 1; if r.panic_msgs.len() < 8 && !r.panic_msgs.contains(m) { r.panic_msgs.push(m.clone()); } }
+                PathEnd::Abort(a) if sym::with(|c| c.concretised) && false => { let _ = a; }
                 PathEnd::Abort(a) => { if a.starts_with("assumption") { r.paths_pruned += 1 } else if a.starts_with("budget") { r.capped = true } else if r.aborted.len() < 8 { r.aborted.push(a.clone()) } }
             }
             r.queries += q1.0 - q0.0; r.n_sat += q1.1 - q0.1; r.n_unsat += q1.2 - q0.2; r.n_unknown += q1.3 - q0.3; r.n_nl += q1.4 - q0.4; r.solver_secs += s1 - s0;
             r.obligations += stats.obligations; r.discharged += stats.discharged; r.discharged_ident += stats.discharged_ident; r.real_equal_only += stats.real_equal_only;
             r.unknown_branches += stats.unknown_branches;
             r.native_replays += replays;
+            if sym::with(|c| std::mem::take(&mut c.concretised)) { r.capped = true; }
             let cc = sym::with(|c| std::mem::take(&mut c.crosscheck));
             r.cc_asked += cc.0; r.cc_agreed += cc.1; r.cc_noanswer += cc.2; r.cc_disagree.extend(cc.3);
             r.normal_form_decisions += sym::with(|c| c.n_lin_decided.get() + c.n_poly_decided.get()) - nf0;
